@@ -181,6 +181,23 @@ func (x *Run) callFunc(fr *Frame, st *State, fn *ssa.Function, args []Val, bindi
 		}
 		return x.useSelfCall(fr, st, fn, args, site)
 	}
+	// --- trusted replacement ---
+	if sf := x.spec.stubs[name]; sf != nil && !(fr.con != nil && fr.con.Target == fn) {
+		x.mu.Lock()
+		x.opaque["stub:"+x.fnShort(fn)] = true
+		x.mu.Unlock()
+		st.events = append(st.events, Event{Name: "call:" + fn.String(), Args: args})
+		idx := len(st.events) - 1
+		outs := x.runFunc(sf, args, nil, st, fr, ModeNormal)
+		for i := range outs {
+			if !outs[i].panic && idx < len(outs[i].st.events) {
+				ev := append([]Event(nil), outs[i].st.events...)
+				ev[idx].Ret = outs[i].ret
+				outs[i].st.events = ev
+			}
+		}
+		return outs
+	}
 	// --- contract on callee ---
 	if con := x.spec.contractFor(name); con != nil && !x.inContractOf(fr, con) {
 		return x.useContract(fr, st, con, args, site)
@@ -417,6 +434,13 @@ func (x *Run) invoke(fr *Frame, st *State, recv Val, cc *ssa.CallCommon, args []
 	m := cc.Method
 	full := m.FullName()
 	all := append([]Val{recv}, args...)
+	if con := x.spec.contractFor(full); con != nil && con.InlineKnown && recv.Inner != nil && recv.Inner.Ty != nil && !(fr.con == con) {
+		// receiver's dynamic type known: run the implementation (each listed
+		// implementation is verified against the contract separately)
+		if fn := x.prog.LookupMethod(recv.Inner.Ty, m.Pkg(), m.Name()); fn != nil {
+			return x.callFunc(fr, st, fn, append([]Val{*recv.Inner}, args...), nil, site)
+		}
+	}
 	if con := x.spec.contractFor(full); con != nil {
 		if fr.con == con && fr.mode == ModeContractUse {
 			return x.useSelfCall(fr, st, nil, all, site)
